@@ -134,7 +134,9 @@ def handleSpecial (stream : String) (args : List String) : String :=
   | "sctpassoc", role :: _seed :: pks =>
     match pks.mapM parseSctpPkt with
     | some ps =>
-      let s0 : SctpSt.St := if role = "1" then { t1 := 1, hasTag := true } else {}
+      -- role: bit 0 = client (own INIT sent, T1 running); bit 1 = the association starts Closed (as left by a dropped runner)
+      let st0 := if role = "2" ∨ role = "3" then 2 else 0
+      let s0 : SctpSt.St := if role = "1" ∨ role = "3" then { t1 := 1, hasTag := true, state := st0 } else { state := st0 }
       match SctpSt.runHistory s0 ps (Buf.ofList []) 0 with
       | .ok ds _ _ => "ok " ++ " ".intercalate (ds.map fun d => "/".intercalate (d.map nats))
       | .err e _ => "err " ++ e
@@ -175,6 +177,9 @@ def handleSpecial (stream : String) (args : List String) : String :=
   | "srtpflood", _ => "noncompared"
   | "sharedudp", _ => "noncompared"
   | "hpktbuf", _ => "noncompared"
+  | "rtcpmarshal", _ => "noncompared"
+  | "turnclient", _ => "noncompared"
+  | "sdpsdes", _ => "noncompared"
   | "udptlbuf", ms :: e0 :: ops =>
     match ms.toNat?, e0.toNat?, ops.mapM (fun t => match fields t with | [a, b] => do some (← a.toNat?, ← b.toNat?) | _ => none) with
     | some ms, some e0, some ops =>
